@@ -508,7 +508,11 @@ PROPS = {
     },
     "C01": {
         "class_prefixes": ["c01-", "c06-frame-too-large", "c06-garbage", "c06-advertised-mfs", "harness-crash"],
-        "subs": [
+        "subs": [{"name": "fdec", "n_quick": 400, "n_thorough": 6000, "model": "coq/Frame/AmqpFrame.v, coq/Frame/TransferWire.v, coq/Frame/Transfer.v",
+             "rule": "the frame codec cases of C06 (see there); here the `xfer` cases: a transfer with a payload of 0..3 frame bodies through the real Transport "
+                     "with max-frame-size 512/513/600/1024 - every byte written against transfer_perfs + wire_transfer, and every frame read back by the real "
+                     "FrameDecoder against dec_frame; the parts read back must concatenate to the payload"},
+            
             {"name": "e2e", "n_quick": 150, "n_thorough": 3000, "oracle": False,
              "rule": "a real client and a real in-process listener (both directions) over an in-memory pipe with a relay that re-chunks the byte stream (1..4096 bytes, "
                      "splitting frame headers); configuration drawn per case: max-frame-size 512..64Ki on each side, session windows 1..5000, credit Auto(n)/Manual, "
